@@ -321,9 +321,18 @@ def seed_rules(chk, repo, eff, clause, global_users, only=None):
         nothing but documented users of the global generator (or further such helpers)"""
         if key in global_users:
             return True
-        if key in seen or key in known_functions() or not key.rsplit('.', 1)[-1].startswith('_'):
+        parts = key.split('.')
+        private = parts[-1].startswith('_') or (len(parts) >= 3 and parts[-2].startswith('_'))
+        if key in seen or key in known_functions() or not private:
             return False
-        cs = callers.get(key, set())
+        cs = set(callers.get(key, set()))
+        if len(parts) >= 3 and parts[-2].startswith('_'):
+            # a method of a private class: it runs where the class is used - the functions that name the class
+            cname = parts[-2]
+            for g_ in repo.all_functions():
+                if g_.module.name == parts[0] and g_.key != key and any(isinstance(n_, ast.Name) and n_.id == cname for n_ in ast.walk(g_.node)):
+                    cs.add(g_.key)
+            cs = {c for c in cs if not c.startswith('.'.join(parts[:-1]) + '.')} or cs
         return bool(cs) and all(part_of_documented(c, seen + (key,)) for c in cs)
     for f in repo.all_functions():
         s = eff.summary(f)
